@@ -14,6 +14,9 @@ CLOSURE = [
     {'fn': 'IncrementalPFI.explain_one', 'clauses': ['pfi_val', 'pfi_dom', 'pfi_importance'], 'safety': False},
     {'fn': 'IncrementalSage.explain_one', 'clauses': ['chain', 'contrib_dom', 'importance_step'], 'safety': False},
 ]
+# operation-level refinement clauses: stricter than the statement (another equally stable formulation would lose them without
+# breaking the error bounds) - a failure counts as a violation only together with a failing input from the numeric stand-in
+STRICTER_THAN_STATEMENT = ['*#float/*']
 EXPLANATION = ("Operation-level refinement: with +,-,*,/ uninterpreted (IEEE operations, commutativity only) the shipped "
                "updates are proved to be exactly the Welford/West recurrence mean' = mean (+) (v (-) mean) (/) N', "
                "M2' = M2 (+) (v (-) mean) (*) (v (-) mean'), var = M2 (/) max(N,1), and the convex-combination smoothing step "
